@@ -18,3 +18,9 @@ def check(ctx, rep):
     rep.trusted = ["T8 set semantics, generators"]
     graphrules.queries(ctx, rep, "R17.1", "R17.2", "R17.3", "R17.4", "R17.5", "R17.6")
     common.relation_builder(ctx, rep, "R17.2")
+    p, r = ctx.prog, ctx.roles
+    funcs = [f for f in r.sched.methods.values() if f.name in (
+        'entry_jobs', 'exit_jobs', 'predecessors', 'successors', 'predecessors_upstream', 'successors_downstream',
+        'iterate_jobs') or 'neighbours' in f.name]
+    common.job_truthiness(ctx, rep, "R17.7", funcs)
+    common.no_state_across_calls(ctx, rep, "R17.8", funcs)
